@@ -182,7 +182,8 @@ def run(ctx):
             if req_m is not None:
                 m = decode(answers[req_m])
                 same = (out == m)
-                if not same and kind == 'mutated' and out[0] == 'err' and m[0] == 'err' and not out[1].startswith('internal') and not m[1].startswith('internal'):
+                if (not same and kind == 'mutated' and out[0] == 'err' and m[0] == 'err' and out[1] in ('syntax', 'sanity', 'type', 'value')
+                        and m[1] in ('syntax', 'sanity', 'type', 'value')):
                     same = True      # several defects: class may differ by detection order
                 if not same:
                     disagreements.append({'input': inp, 'impl': _short(out), 'model': _short(m)})
